@@ -42,7 +42,7 @@ ASSUMPTIONS = [
     "shared-object history, buffer reuse and scratch-state faults",
     "numba, numpy are trusted",
 ]
-FAULT_KINDS = ["same_name_other_instance", "scribble_temp:extreme", "scribble_temp:random",
+FAULT_KINDS = ["caller_reuses_item_matrix", "same_name_other_instance", "scribble_temp:extreme", "scribble_temp:random",
                "buffer_overwritten_in_place", "rows_shuffled"]
 PROBES = ["dominance_pair_checked", "sparse_last_bin", "same_pair_again",
           "packing_not_decoder_reachable", "value_equals_lower_bound",
@@ -102,6 +102,10 @@ def generate(rng: random.Random, batch: dict, depth: int = 0) -> dict:
         else:
             ops.append({"op": "evaluate", "obj": rng.choice(NAMES),
                         "pack": rng.randrange(len(packs))})
+    if "resource" not in inst and rng.random() < 0.04:
+        inst = {**inst, "caller": {
+            "src": rng.choice(["auto", "auto", "int64"]),
+            "reuse": rng.choice(["scale", "zero"])}}
     doc = {"inst": inst, "packs": packs, "buffers": rng.choice([1, 1, 2]),
            "ops": ops}
     if depth == 0 and "resource" not in inst and rng.random() < 0.25:
@@ -175,6 +179,11 @@ def _execute_one(doc: dict, name: str) -> dict:
     inst = packgen.build_instance(doc["inst"], name)
     W, H = int(inst.bin_width), int(inst.bin_height)
     items = [[int(v) for v in row] for row in inst]
+    if doc["inst"].get("caller"):
+        # judged against what was handed to the constructor, not against an
+        # instance that may share the caller's (re-used) buffer
+        core.bump(res["faults"], "caller_reuses_item_matrix")
+        items = [[int(v) for v in row] for row in doc["inst"]["items"]]
     n_items = int(inst.n_items)
     core.bump(res["probes"], f"dtype:{inst.dtype}")
     inst_digest = core.digest([W, H, items])[:16]
